@@ -113,6 +113,10 @@ def implFields (s : SeenTok) : List (Bytes × Bytes) :=
   (if s.ua.isEmpty then [] else [("user-agent".toUTF8.toList, s.ua)]) ++
   (if s.ct.isEmpty then [] else [("content-type".toUTF8.toList, s.ct)]) ++ s.h
 
+def containsBytes (pat : Bytes) : Bytes → Bool
+  | [] => pat.isEmpty
+  | c :: t => pat.isPrefixOf (c :: t) || containsBytes pat t
+
 def forbiddenTrailer : List String :=
   ["transfer-encoding", "content-length", "host", "cache-control", "expect", "max-forwards", "pragma", "range", "te",
    "authorization", "proxy-authorization", "proxy-authenticate", "www-authenticate", "set-cookie", "cookie", "age",
@@ -124,7 +128,7 @@ def trailerDeclOk (r : Req) : Bool :=
   (lookupAll r.fields "trailer".toUTF8.toList).all (fun v =>
     (Hertz.Spec.Http.splitOnComma v).all (fun e =>
       let e := lowerAll (trimOWS e)
-      e.isEmpty || (isToken e && !forbiddenTrailer.contains (String.fromUTF8! (ByteArray.mk e.toArray)))))
+      e.isEmpty || (isToken e && !(forbiddenTrailer.map (·.toUTF8.toList)).contains e)))
 
 /-- a spec request the comparison is defined for: singleton fields not repeated and non-empty,
 `Connection` either absent, exactly `close`, or free of a `close` token -/
@@ -134,7 +138,7 @@ def comparable (disableNorm : Bool) (r : Req) : Bool :=
   let single (n : String) := (lookupAll r.fields n.toUTF8.toList).length ≤ 1 && (lookupAll r.fields n.toUTF8.toList).all (!·.isEmpty)
   let conns := lookupAll r.fields "connection".toUTF8.toList
   single "host" && single "user-agent" && single "content-type" && trailerDeclOk r && !r.foldedColon &&
-  conns.all (fun v => v == "close".toUTF8.toList || !(lowerAll v).toArray.toList.isEmpty && !(String.fromUTF8! (ByteArray.mk (lowerAll v).toArray)).contains "close")
+  conns.all (fun v => v == "close".toUTF8.toList || !(lowerAll v).isEmpty && !containsBytes "close".toUTF8.toList (lowerAll v))
 
 def specClose (r : Req) : Bool := (lookupAll r.fields "connection".toUTF8.toList).contains "close".toUTF8.toList
 def specExpect (r : Req) : Bool := (lookupAll r.fields "expect".toUTF8.toList) == ["100-continue".toUTF8.toList]
